@@ -89,7 +89,7 @@ static std::vector<double> dyadicNodes(vh::Rng& r, int lo, int hi, int n)
     return v;
 }
 
-struct GenOpt { bool strict = false; bool smallKr = false; bool zeroPc = false; bool shared = false; };
+struct GenOpt { bool strict = false; bool smallKr = false; bool zeroPc = false; bool shared = false; double exactTol = 0.0; };
 
 static Region makeRegion(vh::Rng& r, const GenOpt& o)
 {
@@ -105,6 +105,7 @@ static Region makeRegion(vh::Rng& r, const GenOpt& o)
         for (int i = p; i < nn; ++i) { acc += (o.smallKr && i == p) ? 0.004 + 0.01 * r.unit() : 0.05 + r.unit(); v[i] = acc; }
         for (int i = p; i < nn; ++i) v[i] *= vmax / acc;
         if (nn > p) v[nn - 1] = vmax;
+        if (o.exactTol > 0.0 && p + 1 < nn && v[p] < o.exactTol && o.exactTol < v[p + 1]) v[p] = o.exactTol;   // a relperm exactly at TOLCRIT
         return v;
     };
     auto decreasing = [&](int nn, int q, double vmax) {           // vmax at 0, strictly decreasing to 0 at q, 0 after; optional top plateau
@@ -226,7 +227,7 @@ static std::array<double, 17> randomEndpoints(vh::Rng& r, int style)
     const double swl = 0.02 + 0.18 * r.unit();
     const double swcr = swl + (style == 2 && r.coin(1, 4) ? 0.0 : 0.15 * r.unit());
     const double swu = r.coin() ? 1.0 : 1.0 - 0.1 * r.unit();
-    const double sowcr = 0.05 + 0.25 * r.unit();
+    const double sowcr = (1.0 - swu) + 0.05 + 0.2 * r.unit();                   // 1 - SOWCR - SGL stays below SWU
     const double sgl = r.coin(2, 3) ? 0.0 : 0.05 * r.unit();
     const double sgcr = sgl + 0.1 * r.unit();
     const double sgu = r.coin() ? 1.0 - swl : 1.0 - swl - 0.04 * r.unit();
@@ -268,6 +269,7 @@ static DeckSpec makeDeck(vh::Rng& r, const GenCfg& g)
     o.smallKr = d.hasTolcrit;
     const bool shared = g.shared < 0 ? r.coin() : g.shared;
     if (d.hasTolcrit) d.tolcrit = r.coin() ? 0.02 : 1e-3;
+    if (d.hasTolcrit && r.coin()) o.exactTol = d.tolcrit;
     for (int i = 0; i < nreg; ++i) {
         o.zeroPc = !anyPcMask && !g.strict && r.coin(1, 8);        // max Pc = 0 and PCW given: 0*(PCW/0), see design.d/C15.md
         o.shared = shared || d.hasTolcrit;                          // normalisation by TOLCRIT acts identically on shared nodes only
@@ -692,6 +694,34 @@ static std::map<std::string, long> propDecks(vh::Rng& r, vh::PropLog& log, int n
                     chk(close(hi.krg, R.krg.back() * kgf, 1e-11, 1e-14), "deck.endpoint.krg.max", tag(cell) + "krg(SGU)=" + num(hi.krg) + " want " + num(R.krg.back() * kgf));
                     chk(close(hi.pcgo, R.pcog.back() * 1e5 * pgf, 1e-11, 1e-8), "deck.endpoint.pcgo.max", tag(cell) + "pcgo(SGU)=" + num(hi.pcgo) + " want " + num(R.pcog.back() * 1e5 * pgf));
                 }
+                // KRO scales both two-phase oil relperms: at connate water without gas the oil relperm is KRO
+                if (d.maskD[16]) {
+                    const Vals v = evaluate(*b.mgr, cell, {info.Swl, 1 - info.Swl, 0.0});
+                    chk(close(v.kro, d.arrD[cell][16], 1e-10, 1e-13), "deck.endpoint.kro.max", tag(cell) + "kro(SWL, Sg=0)=" + num(v.kro) + " KRO " + num(d.arrD[cell][16]));
+                }
+                // three-point scaling: the displacing critical saturations map onto the table's as well
+                if (d.threepoint) {
+                    const auto t0 = b0.mgr->oilWaterScaledEpsInfoDrainage(cell);     // the table's own end-points
+                    const double kof = d.maskD[16] ? d.arrD[cell][16] / R.krow.front() : 1.0;
+                    {   // water at 1 - SOWCR - SGL
+                        const double sw = 1.0 - info.Sowcr - info.Sgl, tsw = 1.0 - t0.Sowcr - t0.Sgl;
+                        const Vals v = evaluate(*b.mgr, cell, {sw, 1 - sw, 0.0}), w = evaluate(*b0.mgr, cell, {tsw, 1 - tsw, 0.0});
+                        chk(close(v.krw, w.krw * kwf, 1e-9, 1e-12), "deck.threepoint.krw.displacing", tag(cell) + "krw(1-SOWCR-SGL)=" + num(v.krw) + " table " + num(w.krw * kwf));
+                    }
+                    {   // gas at 1 - SWL - SOGCR
+                        const double sg = 1.0 - info.Swl - info.Sogcr, tsg = 1.0 - t0.Swl - t0.Sogcr;
+                        const Vals v = evaluate(*b.mgr, cell, {info.Swl, 1 - info.Swl - sg, sg}), w = evaluate(*b0.mgr, cell, {t0.Swl, 1 - t0.Swl - tsg, tsg});
+                        chk(close(v.krg, w.krg * kgf, 1e-9, 1e-12), "deck.threepoint.krg.displacing", tag(cell) + "krg(1-SWL-SOGCR)=" + num(v.krg) + " table " + num(w.krg * kgf));
+                    }
+                    {   // oil in water at SWCR + SGL (no gas: the three-phase value is the oil-water one away from connate water)
+                        const double sw = info.Swcr + info.Sgl, tsw = t0.Swcr + t0.Sgl;
+                        // (SWCR = SWL puts the lower and the critical point in one place: the code then returns the table's lower point)
+                        if (info.Swcr - info.Swl >= 1e-4 && sw - info.Swl >= 1e-4 && tsw - t0.Swl >= 1e-4) {
+                            const Vals v = evaluate(*b.mgr, cell, {sw, 1 - sw, 0.0}), w = evaluate(*b0.mgr, cell, {tsw, 1 - tsw, 0.0});
+                            chk(close(v.kro, w.kro * kof, 1e-8, 1e-11), "deck.threepoint.krow.displacing", tag(cell) + "krow(SWCR+SGL)=" + num(v.kro) + " table " + num(w.kro * kof));
+                        }
+                    }
+                }
                 // two-point scaling: the whole curve is the table's curve under the affine map of the end-points
                 if (!d.threepoint) {
                     for (int t = 0; t <= 40; ++t) {
@@ -809,6 +839,18 @@ static std::map<std::string, long> propDecks(vh::Rng& r, vh::PropLog& log, int n
                         prev = v.krg;
                     }
                 }
+            }
+            // the imbibition curves are those of the cell's IMBNUM region: with EHYSTR model 1 the water relperm *is* the
+            // imbibition curve, i.e. the water relperm of the same deck without hysteresis and SATNUM := IMBNUM
+            if (d.krModel == 1 && !d.endscale) {
+                DeckSpec dm = dn; dm.satnum = d.imbnum;
+                Built bm = build(dm, deckText(dm));
+                for (int cell = 0; cell < d.ncell; ++cell)
+                    for (int t = 0; t <= 20; ++t) {
+                        const double sw = t / 20.0;
+                        const Vals u = evaluate(*b.mgr, cell, {sw, 1 - sw, 0.0}), v = evaluate(*bm.mgr, cell, {sw, 1 - sw, 0.0});
+                        chk(u.krw == v.krw, "deck.hyst.imbibition-region", tag(cell) + "IMBNUM " + std::to_string(d.imbnum[cell]) + " SATNUM " + std::to_string(d.satnum[cell]) + " Sw=" + num(sw) + " krw " + num(u.krw) + " imbibition table " + num(v.krw));
+                    }
             }
             // Carlson identity: IMBNUM = SATNUM and no separate imbibition end-points -> hysteresis changes nothing
             DeckSpec di = d;
